@@ -45,8 +45,8 @@ theorem C20_parse_agree (c : Crs) (st : Style) (hw : wellFormed c = true) (hst :
   unfold styleOK at hst
   simp only [Bool.and_eq_true, beq_iff_eq, decide_eq_true_eq] at hst
   have hf := wf_spheroid c hw
-  obtain ⟨r1, hp1, hv1⟩ := p4_parse_agree c st hw hn hst.1 hf
-  obtain ⟨r2, hp2, hv2⟩ := wkt_parse_agree c st hw hn hst.1 hst.2 hf
+  obtain ⟨r1, hp1, hv1, _⟩ := p4_parse_agree c st hw hn hst.1 hf
+  obtain ⟨r2, hp2, hv2, _⟩ := wkt_parse_agree c st hw hn hst.1 hst.2 hf
   unfold agree
   rw [isView_of _ _ r1 hp1 hv1, isView_of _ _ r2 hp2 hv2]
   rfl
@@ -68,14 +68,16 @@ theorem C20_parse_agree_tokens (c : Crs) (st : Style) (hw : wellFormed c = true)
       rw [foldKVs_toks c st hst.1 hdw hnum]
       rfl
     rw [htok]
-    exact derive_view c _ hf hdw (p4_coreOK c st hw)
+    obtain ⟨r, h1, h2, _⟩ := derive_view c _ hf hdw (p4_coreOK c st hw)
+    exact ⟨r, h1, h2⟩
   · have hsec := sections_toks st.spaces c st hnum hdw hst.1 hst.2 (toWktTree c st).depth
     have htok : parseWktToks (α := XR) (wktSep st) (toWktTree c st) = .ok (wktFinish (wktRaw c st)) := by
       unfold parseWktToks
       rw [wktSep_eq, hsec]
       rfl
     rw [htok]
-    exact derive_view c _ hf hdw (wkt_coreOK c st hw)
+    obtain ⟨r, h1, h2, _⟩ := derive_view c _ hf hdw (wkt_coreOK c st hw)
+    exact ⟨r, h1, h2⟩
 
 /-- **C20_lex_proj4** — tokenizer round trip, independent of `Crs`: on the rendering of any token list
 over the lexer's alphabet the text-level `projString` is the token-level parser -/
